@@ -658,8 +658,13 @@ def rule_named_gates(ctx):
              fail="T", presence="cert.cert_chain"),
     ], sinks=lambda n: n.kind == "stmt" and norm(n.ast).startswith("self.session.clientCertChain ="))
     f = ctx.index.func(TLSREC + "_handle_srv_pha")
-    src = [norm(x) for x in own_nodes(f.node) if isinstance(x, ast.Assign)]
-    ctx.check(R, "valid_sig_algs = cr.supported_signature_algs" in src, f.qname,
+    from .common import resolved_text
+    okl = False
+    for x in own_nodes(f.node):
+        if isinstance(x, ast.Assign) and norm(x.targets[0]) == "valid_sig_algs" and isinstance(x.value, ast.Attribute) \
+                and x.value.attr == "supported_signature_algs":
+            okl = resolved_text(f.node, x.value.value).startswith("self._cert_requests.pop(")
+    ctx.check(R, okl, f.qname,
               "PHA: the offered list is the one of the matching CertificateRequest",
               "the PHA scheme must be checked against the signature algorithms of the CertificateRequest whose "
               "context the client answered", f.loc())
